@@ -3,18 +3,26 @@ from __future__ import annotations
 
 import ast
 
-from sa.domains import TCHAR, VCHAR, fmt_set
+import sa.astx as astx
+from sa.astx import NotConst, call_attr, call_name, const_eval, src, walk_local
+from sa.domains import TCHAR, VCHAR, fmt_set, loop_reject_set, regex_class
 from sa.selftest import Mutant, Silent
 from sa.source import AnalysisError
-from sa.props._lib_f import (InterpError, MDeferred, MExc, MFailure, ModelRaised, NullLogger, RepoObject, World, swallowing_env)
+from sa.props._lib_f import (Abstain, InterpError, MDeferred, MExc, MFailure, ModelRaised, NullLogger, RepoObject, World, call_sites, named_calls, norm_function, norm_method,
+                             param_names, resolver, structural, swallowing_env)
 
 PROPERTY = "C24"
 P = "web/_newclient.py"
 A = "web/_abnf.py"
 HH = "web/http_headers.py"
 Q = "twisted.web._newclient."
-TECHNIQUE = "finite-domain interpretation of the request writer against byte-level oracles"
+TECHNIQUE = "validators over all 256 bytes + provenance/dominance at the write sink (normalised view); bounded byte-level scenarios as second layer"
 EXPLANATION = (
+    "FINITE-EXHAUSTIVE: _istoken's per-byte test and _VALID_URI's character class on all 256 byte values (the loop / the \\A CLASS+ \\Z shape make that exhaustive), both "
+    "outcomes of the one predicate each _ensureValid* consults, emptiness classes of ChunkedEncoder.write (F24).  STRUCTURAL on the normalised view: every use of self.method / "
+    "self.uri in Request._writeHeaders is the argument of its validator, no refusal can follow a transport write, the Host-count test decides every write, __init__ stores "
+    "validated values, the framing line of each _writeTo* is paired with its encoder class and writeTo dispatches on UNKNOWN_LENGTH.  BOUNDED second layer (clauses with bounded "
+    "evidence only: exact head bytes, header-line format, chunk format, terminator-once, Content-Length accounting, head-before-body order): "
     "Every clause is decided by interpreting the repository's own functions (whitelisted evaluator over the AST; classes become model objects whose methods are "
     "the class's functions, nested functions are closures, Deferred/transport/producer are synchronous models; nothing is imported or executed) and comparing "
     "the bytes written with an oracle, so the verdict does not depend on how the code is spelled: (a) _istoken / _ensureValidMethod / _ensureValidURI on every "
@@ -27,6 +35,13 @@ EXPLANATION = (
     "writes give success / WrongBodyLength / WrongBodyLength with the producer stopped and no excess byte forwarded / ExcessWrite. Not decided: parse-back by an "
     "independent parser for arbitrary inputs."
 )
+RULE_KINDS = {
+    "validator/token-set": "finite-exhaustive", "validator/uri-class": "finite-exhaustive", "validator/decision": "finite-exhaustive", "validator/accepts-exactly": "finite-exhaustive",
+    "validator/token-nonempty": "finite-exhaustive", "chunked/empty-write-guard": "finite-exhaustive",
+    "sink/": "structural", "framing/pairing": "structural", "framing/choice": "structural",
+    "validator/refused-at-construction": "bounded", "headers/": "bounded", "sink/head-bytes": "bounded", "sink/refused-before-write-evaluated": "bounded",
+    "framing/head-matches-encoder": "bounded", "framing/head-first": "bounded", "chunked/": "bounded", "length/": "bounded",
+}
 ASSUMPTIONS = ["Deferred, transports and body producers behave like the synchronous models in sa/props/_lib_f.py (callbacks run in order, a result fires once)",
                "header names/values reach the wire only through twisted.web.http_headers.Headers"]
 
@@ -154,8 +169,193 @@ def _outcome(d):
     return ("fail", r.value.name) if isinstance(r, MFailure) else ("ok", r)
 
 
+# ==================================================================================================================================
+# STRUCTURAL / FINITE-EXHAUSTIVE layer (normalised view: private helpers inlined, pure temporaries substituted)
+# ==================================================================================================================================
+KEEP_REQUEST = {"writeTo", "_writeHeaders", "__init__", "_writeToBodyProducerChunked", "_writeToBodyProducerContentLength", "_writeToEmptyBodyContentLength", "_construct", "stopWriting"}
+
+
+def _bytes_const(node):
+    try:
+        v = const_eval(node)
+    except NotConst:
+        return None
+    return v if isinstance(v, bytes) else None
+
+
+def _fe_validators(ctx):
+    """finite-exhaustive: (1) _istoken looks at its argument byte by byte against a constant set (+ emptiness): evaluating the per-byte test on all 256 values is exhaustive;
+    (2) _VALID_URI is CLASS+ between \\A and \\Z: its accepted language is determined by the character class, evaluated on all 256 values; (3) the decision of each
+    _ensureValid* depends on its argument only through that one predicate: both outcomes of the predicate are enumerated on the CFG."""
+    f = ctx.func(A, "_istoken")
+    q = "twisted.web._abnf._istoken"
+    try:
+        it, rej, test = loop_reject_set(f)
+    except AnalysisError as e:
+        raise Abstain(f"_istoken is not a per-byte reject loop: {e}")
+    acc = set(range(256)) - rej
+    if it != param_names(f)[0]:
+        raise Abstain("the loop does not iterate over the argument")
+    ctx.check(acc == TCHAR, "validator/token-set", q, f"accepted bytes differ from RFC 9110 tchar: extra {fmt_set(acc - TCHAR)}, missing {fmt_set(TCHAR - acc)}",
+              detail="domain: the per-byte test evaluated on all 256 byte values; the loop applies it to every byte of the argument independently")
+    mod = ctx.mod(P)
+    pat = mod.module_assign("_VALID_URI")
+    if not (isinstance(pat, ast.Call) and call_name(pat) == "re.compile" and len(pat.args) == 1 and not pat.keywords and _bytes_const(pat.args[0]) is not None):
+        raise Abstain("_VALID_URI is not re.compile(<bytes constant>) without flags")
+    try:
+        rc = regex_class(_bytes_const(pat.args[0]))
+    except AnalysisError as e:
+        raise Abstain(f"_VALID_URI is not of the shape anchor CLASS{{m,n}} anchor: {e}")
+    q = Q + "_VALID_URI"
+    ok = rc["set"] == VCHAR and rc["anchored_start"] and rc["anchored_end"] == "Z" and rc["min"] is not None and rc["min"] >= 1 and rc["max"] is None
+    ctx.check(ok, "validator/uri-class", q, f"the pattern accepts class extra {fmt_set(rc['set'] - VCHAR)} / missing {fmt_set(VCHAR - rc['set'])}, anchors start={rc['anchored_start']} "
+              f"end={rc['anchored_end']!r} ('$' also matches before a trailing newline), repetition {rc['min']}..{rc['max']}: not exactly 1*VCHAR",
+              detail="domain: the accepted language of \\A CLASS+ \\Z is determined by the class, evaluated on all 256 byte values")
+    for name, pred_ok in (("_ensureValidMethod", lambda e: isinstance(e, ast.Call) and call_name(e) == "_istoken"),
+                          ("_ensureValidURI", lambda e: isinstance(e, ast.Call) and call_name(e) in ("_VALID_URI.match", "_VALID_URI.fullmatch"))):
+        f = norm_function(ctx, P, name)
+        g = ctx.cfg(f)
+        q = Q + name
+        p_ = param_names(f)[0]
+        preds = [x for x in walk_local(f) if pred_ok(x) and [src(a_) for a_ in x.args] == [p_]]
+        if len({src(x) for x in preds}) != 1:
+            raise Abstain(f"{name} does not consult exactly one predicate on its argument")
+        ptxt = src(preds[0])
+        rets = g.ids(lambda x: x.kind == "stmt" and isinstance(x.ast, ast.Return))
+        raises = g.ids(lambda x: x.kind == "stmt" and isinstance(x.ast, ast.Raise))
+        problems = []
+        for outcome, label in (((object() if "match" in ptxt else True), "accepted"), ((None if "match" in ptxt else False), "refused")):
+            ok_e = resolver(g, {ptxt: outcome})
+            R = g.reach([g.entry], edge_ok=lambda a_, b_, l_: l_ != "exc" and ok_e(a_, b_, l_))
+            ret_here = [r for r in rets if r in R]
+            raise_here = [r for r in raises if r in R]
+            falls = g.exit in R and not ret_here
+            if label == "accepted":
+                if raise_here or not ret_here or any(src(g.node(r).ast.value) != p_ for r in ret_here):
+                    problems.append("an accepted value is refused or not returned unchanged")
+            else:
+                if ret_here or falls or not raise_here or any("ValueError" not in src(g.node(r).ast) for r in raise_here):
+                    problems.append("a refused value is returned (or the refusal is not ValueError)")
+        ctx.check(not problems, "validator/decision", q, "; ".join(problems), detail=f"both outcomes of `{ptxt}` enumerated on the CFG; no other test of the argument exists")
+
+
+def _s_write_headers(ctx):
+    """provenance + dominance at the sink: every use of self.method / self.uri in the head writer is the argument of its validator; nothing that can refuse comes after a
+    transport write; the Host-count refusal dominates every write"""
+    f = norm_method(ctx, P, "Request", "_writeHeaders", keep=KEEP_REQUEST)
+    g = ctx.cfg(f)
+    q = Q + "Request._writeHeaders"
+    tp = param_names(f)[1]
+    parents = {}
+    for p_ in ast.walk(f):
+        for c_ in ast.iter_child_nodes(p_):
+            parents[id(c_)] = p_
+    n_use = 0
+    for attr, val in (("method", "_ensureValidMethod"), ("uri", "_ensureValidURI")):
+        for x in ast.walk(f):
+            if isinstance(x, ast.Attribute) and x.attr == attr and src(x.value) == "self" and isinstance(x.ctx, ast.Load):
+                n_use += 1
+                par = parents.get(id(x))
+                ok = isinstance(par, ast.Call) and call_name(par) == val and len(par.args) == 1 and par.args[0] is x
+                ctx.check(ok, "sink/validated-at-sink", q + f" | self.{attr}", f"self.{attr} is used in the request head without passing {val}() at the sink (a value changed after construction is written unchecked)")
+    if n_use < 2:
+        raise Abstain("self.method / self.uri are not both read in the normalised _writeHeaders")
+    writes = [n for n, c in call_sites(g, lambda c: isinstance(c.func, ast.Attribute) and src(c.func.value) == tp)]
+    if not writes:
+        raise Abstain("no transport call found")
+    refusals = [n for n, c in named_calls(g, "_ensureValidMethod", "_ensureValidURI")] + g.ids(lambda x: x.kind == "stmt" and isinstance(x.ast, ast.Raise))
+    for wn in writes:
+        w = g.path([wn], refusals, strict=True)
+        ctx.check(w is None, "sink/refused-before-write", q + " | <transport write>", "something that can refuse the request runs after bytes were written", witness=g.describe(w))
+    tests = [t for t in g.ids(lambda x: x.kind == "test") if "getRawHeaders(b'Host'" in src(g.node(t).ast) and src(g.node(t).ast).startswith("len(")]
+    if len(tests) != 1:
+        raise Abstain("the Host-count test was not recognised")
+    key = src(g.node(tests[0]).ast.left)
+    for k in (0, 1, 2, 3):
+        ok_e = resolver(g, {key: k})
+        R = g.reach([g.entry], edge_ok=lambda a_, b_, l_: l_ != "exc" and ok_e(a_, b_, l_))
+        wr = any(w_ in R for w_ in writes)
+        ctx.check(wr == (k == 1), "sink/exactly-one-host", q + f" | {k} Host header(s)", f"with {k} Host headers the head is {'written' if wr else 'refused'}")
+    f = norm_method(ctx, P, "Request", "__init__", keep=KEEP_REQUEST)
+    for attr, val in (("method", "_ensureValidMethod"), ("uri", "_ensureValidURI")):
+        sts = [s_ for s_ in walk_local(f) if isinstance(s_, ast.Assign) and any(isinstance(t, ast.Attribute) and t.attr == attr and src(t.value) == "self" for t in s_.targets)]
+        if len(sts) != 1:
+            raise Abstain(f"self.{attr} is assigned {len(sts)} times in __init__")
+        ok = isinstance(sts[0].value, ast.Call) and call_name(sts[0].value) == val and [src(a_) for a_ in sts[0].value.args] == [attr]
+        ctx.check(ok, "sink/validated-at-construction", Q + f"Request.__init__ | self.{attr}", f"self.{attr} is stored without {val}")
+
+
+def _s_framing(ctx):
+    """pairing: the function that announces `Transfer-Encoding: chunked` starts the producer on a ChunkedEncoder over the transport, the one announcing Content-Length on a
+    LengthEnforcingConsumer; writeTo chooses between them by the UNKNOWN_LENGTH test"""
+    for name, hdr, enc in (("_writeToBodyProducerChunked", b"Transfer-Encoding: chunked\r\n", "ChunkedEncoder"), ("_writeToBodyProducerContentLength", None, "LengthEnforcingConsumer")):
+        f = norm_method(ctx, P, "Request", name, keep=KEEP_REQUEST)
+        q = Q + "Request." + name
+        wh = [c for c in walk_local(f) if isinstance(c, ast.Call) and call_name(c) == "self._writeHeaders"]
+        sp = [c for c in walk_local(f) if isinstance(c, ast.Call) and call_attr(c) == "startProducing"]
+        if len(wh) != 1 or len(sp) != 1 or len(wh[0].args) < 2 or not sp[0].args:
+            raise Abstain(f"{name}: {len(wh)} _writeHeaders / {len(sp)} startProducing sites")
+        a_ = wh[0].args[1]
+        ok = (_bytes_const(a_) == hdr) if hdr is not None else ("Content-Length: %d" in src(a_) or "Content-Length: " in src(a_))
+        ctx.check(ok, "framing/pairing", q + " | framing line", "the framing header written does not match the body encoder used by this method")
+        cons = sp[0].args[0]
+        ctor = cons if isinstance(cons, ast.Call) else None
+        if isinstance(cons, ast.Name):
+            defs = [s_.value for s_ in walk_local(f) if isinstance(s_, ast.Assign) and any(isinstance(t, ast.Name) and t.id == cons.id for t in s_.targets)]
+            ctor = defs[0] if len(defs) == 1 and isinstance(defs[0], ast.Call) else None
+            if len(defs) != 1:
+                raise Abstain(f"the consumer variable {cons.id} has {len(defs)} definitions")
+        if ctor is None:
+            ctx.violation("framing/pairing", q + " | body consumer", f"the body producer writes into `{src(cons)}`, not into a {enc}: the body is sent unframed / unchecked")
+            continue
+        ctx.check(call_name(ctor) == enc, "framing/pairing", q + " | body consumer", f"the body producer writes into {call_name(ctor)}(...) while the head announces the framing of {enc}")
+    f = norm_method(ctx, P, "Request", "writeTo", keep=KEEP_REQUEST)
+    g = ctx.cfg(f)
+    q = Q + "Request.writeTo"
+    refs = {"chunked": [n for n in g.ids(lambda x: x.kind in ("stmt", "test")) if "_writeToBodyProducerChunked" in src(g.node(n).ast)],
+            "length": [n for n in g.ids(lambda x: x.kind in ("stmt", "test")) if "_writeToBodyProducerContentLength" in src(g.node(n).ast)]}
+    tests = [t for t in g.ids(lambda x: x.kind == "test") if "UNKNOWN_LENGTH" in src(g.node(t).ast)]
+    if len(tests) != 1 or not refs["chunked"] or not refs["length"]:
+        raise Abstain("the UNKNOWN_LENGTH dispatch was not recognised")
+    key = src(g.node(tests[0]).ast)
+    for unknown in (True, False):
+        e = g.node(tests[0]).ast
+        val = unknown if isinstance(e.ops[0], (ast.Is, ast.Eq)) else (not unknown)
+        ok_e = resolver(g, {key: val, "self.bodyProducer is None": False, "self.bodyProducer is not None": True})
+        R = g.reach([g.entry], edge_ok=lambda a_, b_, l_: l_ != "exc" and ok_e(a_, b_, l_))
+        c_r, l_r = any(n in R for n in refs["chunked"]), any(n in R for n in refs["length"])
+        ctx.check((c_r, l_r) == ((True, False) if unknown else (False, True)), "framing/choice", q + f" | length {'unknown' if unknown else 'known'}",
+                  f"for a body of {'unknown' if unknown else 'known'} length the chunked writer is {'' if c_r else 'not '}reachable and the Content-Length writer is {'' if l_r else 'not '}reachable")
+
+
+def _fe_empty_write(ctx):
+    """finite-exhaustive over the only property of `data` that ChunkedEncoder.write inspects (emptiness): a chunk is emitted iff data is non-empty"""
+    f = norm_method(ctx, P, "ChunkedEncoder", "write", keep={"_writeChunk", "unregisterProducer", "_allowNoMoreWrites"})
+    g = ctx.cfg(f)
+    q = Q + "ChunkedEncoder.write"
+    dp = param_names(f)[1]
+    emits = [n for n, c in call_sites(g, lambda c: call_name(c) in ("self._writeChunk", "self.transport.writeSequence", "self.transport.write"))]
+    if not emits:
+        raise Abstain("no chunk emission found in the normalised write()")
+    uses = [src(t.ast) for t in g.nodes if t.kind == "test" and any(isinstance(x, ast.Name) and x.id == dp for x in ast.walk(t.ast))]
+    if not all(u in (dp, f"len({dp})", f"len({dp}) > 0", f"len({dp}) == 0", f"len({dp}) != 0", f"{dp} == b''", f"{dp} != b''") for u in uses):
+        raise Abstain(f"write() tests its data by something other than emptiness: {uses}")
+    for empty in (True, False):
+        mapping = {dp: b"" if empty else b"x", f"len({dp})": 0 if empty else 1, "self.transport is None": False, "self.transport is not None": True}
+        ok_e = resolver(g, mapping)
+        R = g.reach([g.entry], edge_ok=lambda a_, b_, l_: l_ != "exc" and ok_e(a_, b_, l_))
+        em = any(n in R for n in emits)
+        ctx.check(em == (not empty), "chunked/empty-write-guard", q + f" | {'empty' if empty else 'non-empty'} data",
+                  "an empty write reaches the chunk emitter: it is encoded as the zero-length chunk, i.e. the end-of-body marker" if empty else "a non-empty write emits no chunk",
+                  detail="domain: write() inspects its data only for emptiness (checked); both classes enumerated on the CFG")
+
+
 def check(ctx):
-    sections = (("validators", _validators), ("headers-store", _headers_store), ("write-headers", _write_headers), ("framing-agreement", _framing_agreement),
+    sections = (("fe-validators", lambda c: structural(c, "validator/token-set", "validator/accepts-exactly (evaluated on all byte values in context)", _fe_validators, c)),
+                ("s-write-headers", lambda c: structural(c, "sink/validated-at-sink", "sink/head-bytes + sink/refused-before-write-evaluated (bounded)", _s_write_headers, c)),
+                ("s-framing", lambda c: structural(c, "framing/pairing", "framing/head-matches-encoder (bounded)", _s_framing, c)),
+                ("fe-empty-write", lambda c: structural(c, "chunked/empty-write-guard", "chunked/empty-write-not-encoded (bounded)", _fe_empty_write, c)),
+                ("validators", _validators), ("headers-store", _headers_store), ("write-headers", _write_headers), ("framing-agreement", _framing_agreement),
                 ("chunked", _chunked), ("length", _length))
     for name, fn in sections:
         with ctx.section(name):
@@ -268,7 +468,7 @@ def _write_headers(ctx):
         tr = _Transport()
         _, exc = _try(req._writeHeaders, tr, None)
         want = "BadHeaders" if tweak is None else "ValueError"
-        ctx.check(exc == want and not tr.out, "sink/refused-before-write", q + " | " + label,
+        ctx.check(exc == want and not tr.out, "sink/refused-before-write-evaluated", q + " | " + label,
                   f"{label}: " + (f"raises {exc}" if exc else "the request is written") + (f" after {tr.bytes()!r} was already written" if tr.out else "") + f" (expected {want} with nothing written)")
 
 
